@@ -202,6 +202,10 @@ func (cc *CallCtx) forkArg(i int) bool {
 	ai := i
 	if cm.IsInvoke() {
 		ai = i - 1
+		if i == 0 {
+			_, single := cc.e.concretizeReg(cc.c, cc.f, cm.Value)
+			return single
+		}
 	}
 	if ai < 0 || ai >= len(cm.Args) {
 		inconclusive("forkArg index")
@@ -269,6 +273,36 @@ func init() {
 			return v
 		}
 		return refTo(&IfaceVal{T: t, V: v})
+	}}
+	// Value.Elem of a pointer: the pointed-to variable's current value, typed by the pointer's element type
+	// (the zero Value for a nil pointer); Elem of an interface-kind Value is not modelled.
+	models["(reflect.Value).Elem"] = &Model{Plain: func(cc *CallCtx) Value {
+		t := rvType(cc, cc.args[0])
+		if t == nil {
+			cc.e.raise(cc.c, TS.True, "reflect: call of reflect.Value.Elem on zero Value")
+			return zeroReflectValue()
+		}
+		pt, ok := t.Underlying().(*types.Pointer)
+		if !ok {
+			if _, isI := t.Underlying().(*types.Interface); isI {
+				inconclusive("reflect.Value.Elem of an interface-kind Value is not modelled")
+			}
+			cc.e.raise(cc.c, TS.True, "reflect: call of reflect.Value.Elem on non-pointer Value")
+			return zeroReflectValue()
+		}
+		p, ok := rvInner(cc.args[0], cc.c.g).(*RefV)
+		if !ok {
+			inconclusive("reflect.Value.Elem: pointer payload is %T", rvInner(cc.args[0], cc.c.g))
+		}
+		isNil := isNilTerm(p)
+		if isNil.IsTrue() {
+			return zeroReflectValue()
+		}
+		base := cc.c.g
+		cc.c.g = And(base, Not(isNil))
+		v := cc.e.load(cc.c, p)
+		cc.c.g = base
+		return iteValue(isNil, zeroReflectValue(), mkReflectValue(pt.Elem(), v))
 	}}
 	models["(reflect.Value).Pointer"] = &Model{Plain: func(cc *CallCtx) Value {
 		t := rvType(cc, cc.args[0])
@@ -351,15 +385,50 @@ func init() {
 			return &StructV{F: []Value{res, got}}, true
 		}}
 
+	// ---- reflect.FuncOf / reflect.MakeFunc: opaque. The function type built from symbolic type lists and
+	// the function made from it are never inspected by the code in scope before reflect.Value.Call (which is
+	// not modelled): FuncOf yields the placeholder type func(), MakeFunc a non-nil function value of the
+	// given type whose body is unknown.
+	opaqueSig := types.NewSignatureType(nil, nil, nil, nil, nil, false)
+	models["reflect.FuncOf"] = &Model{Plain: func(cc *CallCtx) Value { return rtypeIface(opaqueSig) }}
+	models["reflect.MakeFunc"] = &Model{Takeover: func(cc *CallCtx) bool {
+		if !cc.forkArg(0) {
+			return false
+		}
+		t := typeArg(cc, cc.args[0])
+		if t == nil {
+			cc.e.raise(cc.c, TS.True, "reflect: nil type passed to MakeFunc")
+			return false
+		}
+		if _, ok := t.Underlying().(*types.Signature); !ok {
+			cc.e.raise(cc.c, TS.True, "reflect: call of MakeFunc with non-Func type")
+			return false
+		}
+		cc.finish(mkReflectValue(t, refTo(&FuncVal{Model: "reflect.MakeFunc.result"})))
+		return true
+	}}
+
 	// ---- reflect.Type methods (invoked through the interface) ----
 	tm := func(name string, f func(cc *CallCtx, t types.Type) Value) {
-		models["(verifRType)."+name] = &Model{Plain: func(cc *CallCtx) Value {
+		models["(verifRType)."+name] = &Model{Takeover: func(cc *CallCtx) bool {
+			// the receiver (and a reflect.Type argument) must denote one type: fork on the alternatives
+			if !cc.forkArg(0) {
+				return false
+			}
+			if name == "AssignableTo" && !cc.forkArg(1) {
+				return false
+			}
 			t := typeArg(cc, cc.args[0])
 			if t == nil {
 				cc.e.raise(cc.c, TS.True, "nil pointer dereference (method call on nil reflect.Type)")
-				return nil
+				return false
 			}
-			return f(cc, t)
+			v := f(cc, t)
+			if cc.c.g.IsFalse() {
+				return false
+			}
+			cc.finish(v)
+			return true
 		}}
 	}
 	tm("Kind", func(cc *CallCtx, t types.Type) Value { return BV(kindOf(t), 64) })
